@@ -162,3 +162,62 @@ _bounded('C20', 'exploration',
          '', script='C20.py')
 
 NOT_APPLICABLE = {}
+
+
+# ---- properties whose mechanism functions are under contract (deductive part) + bounded stand-in --------------------------
+
+DEDUCTIVE = ('contract-based deductive verification: sidecar contracts on the real functions, VCs generated from the AST (PyVC), '
+             'discharged by z3/cvc5; the whole-message composition is a bounded run-time comparison with an independent reference, '
+             'labelled bounded')
+WALKER_TRUST = [L['L1'], L['L4'], L['L6'], L['term'],
+                'interface contracts of the abstract primitives Coder.process_numeric / string / codeflag / new_refval / '
+                'numeric_of_new_refval / constant (assumed at calls inside Coder; the ghost call record is definitional)',
+                'lists of objects hold no None; references inside tuples denote allocated objects',
+                'debug logging is off (CoderState.__init__ would otherwise wrap value lists in AuditedList)']
+
+
+def _upgrade(prop, claim, note, witness, extra_assumptions=()):
+    d = PROPS[prop]
+    d.update(level='proof', claim=claim, note=note, technique=DEDUCTIVE, witness_map=witness,
+             trusted_base=list(d.get('trusted_base', [])) + [t for t in WALKER_TRUST if t not in d.get('trusted_base', [])],
+             explanation=claim)
+    d['assumptions'] = list(d.get('assumptions', [])) + list(extra_assumptions)
+
+
+_upgrade('C01',
+         'Proved for all inputs: the bit-level readers (bitops), every operator register update of Coder.process_operator_descriptor (one case '
+         'per operator 201-208, 221, 222-225 / 232, 235-237; every other register unchanged), and which primitive '
+         'Coder.process_element_descriptor issues with which width / scale / reference / label (strings: 208 or nbits // 8; code / flag: '
+         'nbits untouched by 201 / 202 / 207; numerics: nbits + 201 + 207, scale + 202 + 207, reference (new or table) x 207 factor; '
+         'associated field of sum(204) bits first, except class 31; class-33 linking after 222000). Bounded: whole-message decoding against '
+         'the independent reference decoder on generated templates and the sample corpus.',
+         'Not yet under contract: the decoder primitives themselves (decoder.py), the template walk Coder.process_members and replication; '
+         'their composition with the proved pieces is covered by the bounded layer only.',
+         {'pybufrkit.coder.': 'C01.', 'pybufrkit.bitops.': 'C01.'},
+         ['decoder.py primitives and Coder.process_members are not under contract yet (bounded only)'])
+_upgrade('C02',
+         'Proved for all inputs: the bit-level writers (bitops: exactly n bits, big-endian, refusal of values that do not fit, space padding / '
+         'truncation) and the walker pieces shared with C01 (operator registers, element field computation). Bounded: encoder output against '
+         'the independent reference encoder / reader (uncompressed byte-identical, compressed column rules).',
+         'Not yet under contract: encoder.py primitives (nbits_for_uint, compressed columns); bounded only.',
+         {'pybufrkit.coder.': 'C02.', 'pybufrkit.bitops.': 'C02.'},
+         ['encoder.py primitives are not under contract yet (bounded only)'])
+_upgrade('C06',
+         'Proved for all inputs: CoderState.switch_subset_context re-establishes exactly the register state a new CoderState has (spec function '
+         'registers_initial, taken from the statement "each subset is a fresh application of the template") and selects the containers of '
+         'that subset; CoderState.__init__ gives compressed data ONE shared descriptor list / link map and uncompressed data pairwise '
+         'distinct ones. Bounded: alone == together == any order on generated multi-subset messages.',
+         'Not yet under contract: the per-subset loops of Decoder / Encoder.process_template_data and TemplateData.wire (bounded only).',
+         {'pybufrkit.coder.': 'C06'},
+         ['the per-subset loops in decoder.py / encoder.py / templatedata.py are bounded only'])
+_upgrade('C07',
+         'Proved for all inputs: Coder.process_bitmapped_descriptor / process_marker_operator_descriptor link the value to the element of the '
+         'NEXT zero bit (cursor over the zero-bit selection), build a fresh marker descriptor with the operator id, and code difference '
+         'statistics (225255) with width + 1 and reference -2**width; add_bitmap_link, recall_bitmap (237000), cancel_bitmap, '
+         'cancel_all_back_references (235000), mark_back_reference_boundary; the 222-225 / 232 / 235 / 236 / 237 cases of the operator contract; '
+         'class-33 linking in process_element_descriptor. Bounded: links and attribute placement against the reference for all bit patterns '
+         'up to 4 (6) bits.',
+         'Not yet under contract: build_bitmapped_descriptors (back-reference search and zero-bit selection), define_bitmap, the bitmap '
+         'definition automaton, TemplateData wiring; bounded only.',
+         {'pybufrkit.coder.': 'C07'},
+         ['build_bitmapped_descriptors, define_bitmap, process_bitmap_definition and templatedata.py are bounded only'])
